@@ -710,24 +710,49 @@ def r2_1(rep):
                 if conv is False and frow(v, True) is body:
                     continue  # one arm for both
                 sm = None
+                size_at = None   # position of the size inside a tuple scrutinee
                 for n in fb.walk(body):
-                    if n["k"] == "Match" and scrut_ty(fb, n) == "usize":
+                    if n["k"] != "Match":
+                        continue
+                    if scrut_ty(fb, n) == "usize":
                         sm = n
                         break
+                    sn_ = strip(n["scrut"])
+                    if sn_["k"] == "Tup":
+                        hit = [i for i, e_ in enumerate(sn_["es"]) if "Layout::size" in fb.canon(e_, 8) or "Layout.size" in fb.canon(e_, 8)]
+                        if len(hit) == 1:
+                            sm, size_at = n, hit[0]
+                            break
                 if sm is None:
                     rep.bad(key + ":by-size", "%s is not spelled by the libclang-reported size: %s" % (v, show(r)), fb.loc(body))
                     continue
-                sc2 = fb.canon(sm["scrut"], 8)
+                sc2 = fb.canon(sm["scrut"] if size_at is None else strip(sm["scrut"])["es"][size_at], 8)
                 rep.check("Layout.size" in sc2.replace("::size", ".size") and "param:layout" in sc2, "float:%s:size-source" % v,
                           "the size is the `layout` argument's size: %s" % sc2[-60:], fb.loc(sm))
+                seen_sz = {}
                 for alt, guard, sbody, i in match_rows(fb, sm):
                     rr = val(fb, sbody)
+                    if size_at is not None and isinstance(alt, tuple) and alt[0] == "tuple":
+                        rest = [x for j, x in enumerate(alt[1:]) if j != size_at]
+                        alt = alt[1 + size_at]
+                        if alt == "_" and any(x != "_" for x in rest):
+                            rep.bad("float:%s:size-row-shape" % v, "a row that fixes another component but not the size: %s" % show(rr)[:60], fb.loc(sbody))
+                            continue
                     if isinstance(alt, tuple) and alt[0] == "lit":
                         want = row["by_size"].get(str(alt[1]))
                         got = rust_of_leaf(rr)
                         pr = prims.get((got or "")[5:], {})
-                        rep.check(guard is None and got is not None and pr.get("size") == alt[1] and (want is None or got == want),
-                                  "float:%s:size=%s" % (v, alt[1]), "%d-byte long double -> %s (needs a %d-byte type%s)"
+                        if (got or "").startswith("raw:"):
+                            # a C alias is a type of that size exactly when it names the C type the oracle's primitive stands for
+                            cname = aliases.get(got[4:], {}).get("c")
+                            same = [k for k, r_ in o_f.items() if r_.get("c") == cname and r_.get("size") == alt[1] and aliases.get(got[4:], {}).get("float")]
+                            okrow = bool(same)
+                        else:
+                            okrow = pr.get("size") == alt[1] and (want is None or got == want)
+                        k_ = "float:%s:size=%s" % (v, alt[1])
+                        seen_sz[k_] = seen_sz.get(k_, 0) + 1
+                        rep.check(guard is None and got is not None and okrow,
+                                  k_ + ("" if seen_sz[k_] == 1 else ":row%d" % seen_sz[k_]), "%d-byte long double -> %s (needs a %d-byte type%s)"
                                   % (alt[1], got or show(rr), alt[1], ", oracle: " + want if want else ""), fb.loc(sbody))
                     elif alt == "_":
                         # integer_type(layout) gives a same-size integer when one exists; the fallback for the rest must not be a
@@ -1423,6 +1448,14 @@ def r2_4(rep):
                 others = [k for k, v in fr.items() if k not in sizes]
                 if sizes and all("padding_bytes" in k for k in others) and (name == "saw_vtable" or Lc.split("~")[0][:40] in sizes[0] or "size" in sizes[0]):
                     grow = True
+            elif n["k"] == "Assign":
+                # the same sum spelled out: latest_offset = <latest_offset | align_to(latest_offset, ..)> + size
+                fr = dict(lin(b, n["r"], {}))
+                sizes = [k for k, v in fr.items() if v == 1 and (k.endswith(".size") or "Layout::size" in k) and "align_to(" not in k]
+                others = [k for k, v in fr.items() if k not in sizes]
+                if len(sizes) == 1 and len(others) == 1 and fr[others[0]] == 1 and "latest_offset" in others[0] and \
+                        (others[0].endswith("latest_offset") or "align_to(" in others[0].split("latest_offset")[0]):
+                    grow = True
         if name == "saw_field_with_layout":
             # struct: += size ; union: max(latest_offset, size)
             unions = [n for n in lo if n["k"] == "Assign" and "max(" in b.canon(n["r"], 6) and "latest_offset" in b.canon(n["r"], 6) and "Layout::size" in b.canon(n["r"], 6)]
@@ -1433,6 +1466,19 @@ def r2_4(rep):
                       "for structs the offset grows by the field's size", b.loc(b.root))
         else:
             rep.check(grow, name + ":offset-grows-by-size", "latest_offset += (padding +) size of the member", b.loc(b.root))
+        if name == "saw_base":
+            # `align_to_latest_field` aligns to the PREVIOUS member and gives up for packed records; the gap in front of the base
+            # itself is only ever accounted by `padding_bytes(<base layout>)` (or, spelled out, align_to(latest_offset, align))
+            aligned = False
+            for n in lo:
+                fr = dict(lin(b, n["r"], {}))
+                pos = [k for k, v in fr.items() if v == 1]
+                if n["k"] == "AssignOp" and n["op"] == "+=":
+                    aligned = aligned or any("padding_bytes(" in k and Lc[:24] in k for k in pos)
+                elif n["k"] == "Assign":
+                    aligned = aligned or any("align_to(" in k and "latest_offset" in k and "::align" in k.split("align_to(", 1)[1] for k in pos)
+            rep.check(aligned, "saw_base:own-alignment-gap", "the offset is first brought to the base's own alignment "
+                      "(`padding_bytes(<base layout>)` is part of what is added)", b.loc(lo[0] if lo else b.root))
     # saw_field_with_layout: padding is added to the offset before the field, and is what the padding blob is made of
     b = ms.get("saw_field_with_layout")
     if b is not None:
@@ -1490,6 +1536,88 @@ def r2_4(rep):
         conds = " ".join(a for n in rets for a, p, _ in qq_atoms(b, n))
         rep.check("<" in conds and "latest_offset" in conds and "== lit:0" in conds, "pad_struct:early-exits",
                   "no padding when the struct is already as large as (or larger than) its layout", b.loc(b.root))
+        _pad_struct_threshold(rep, b)
+
+
+def _pad_struct_threshold(rep, b):
+    """rustc rounds a struct's size up to its alignment, which supplies at most align-1 bytes: a tail gap of `align` bytes or
+    more is never supplied by rustc.  Decided over the three orderings of (gap, layout.align): in `gap == align` and
+    `gap > align` the padding field is emitted whatever the other tests say."""
+    from c08 import _atoms, _ev
+    gaps = []
+    for n in b.walk():
+        if n["k"] == "Let" and n.get("init") is not None and n["pat"].get("name"):
+            fr = dict(lin(b, n["init"], {}))
+            pos = [k for k, v in fr.items() if v == 1]
+            neg = [k for k, v in fr.items() if v == -1]
+            if len(fr) == 2 and len(pos) == 1 and len(neg) == 1 and pos[0].endswith("size") and "latest_offset" in neg[0]:
+                gaps.append(n)
+    if not rep.check(len(gaps) == 1, "pad_struct:gap-def", "one definition of the tail gap `layout.size - latest_offset` (found %d)" % len(gaps), b.loc(b.root)):
+        return
+    GAP = gaps[0]["pat"]["name"]
+    gap_canon = b.canon(gaps[0]["init"], 6)
+
+    def is_gap(e):
+        e = strip(e)
+        return e.get("name") == GAP or b.canon(e, 6) == gap_canon
+
+    def is_align(e):
+        return re.fullmatch(r"param:\w+\.ir::layout::Layout::align", b.canon(strip(e), 6)) is not None
+
+    FLIP = {"<": ">", "<=": ">=", ">": "<", ">=": "<=", "==": "==", "!=": "!="}
+
+    def form(e, depth=0):
+        e = strip(e)
+        k = e.get("k")
+        if k == "Unary" and e["op"] == "!":
+            return ("not", form(e["e"], depth))
+        if k == "Binary" and e["op"] in ("&&", "||"):
+            return ("and" if e["op"] == "&&" else "or", form(e["l"], depth), form(e["r"], depth))
+        if k == "Binary" and e["op"] in FLIP:
+            if is_gap(e["l"]) and is_align(e["r"]):
+                return ("atom", "ORD" + e["op"])
+            if is_align(e["l"]) and is_gap(e["r"]):
+                return ("atom", "ORD" + FLIP[e["op"]])
+        if k == "Local" and depth < 6:
+            init = b.local_init(e["id"])
+            if init is not None and strip(init).get("k") in ("Unary", "Binary", "Local"):
+                return form(init, depth + 1)
+        return ("atom", b.canon(e, 6))
+
+    pf = [c for c in b.calls(lambda n: n["k"] == "MCall" and n.get("name") == "padding_field")]
+    if not rep.check(len(pf) == 1, "pad_struct:padding-site", "one `padding_field` call (found %d)" % len(pf), b.loc(b.root)):
+        return
+    f = ("true",)
+    other = []
+    for pol, kind, g in b.guards(pf[0], nested=True):
+        if kind == "cond":
+            x = form(g)
+        else:
+            other.append(kind)
+            continue
+        f = ("and", f, x if pol else ("not", x))
+    if not rep.check(not other, "pad_struct:guards-are-tests", "the padding field is reached through boolean tests only (found %s)" % other[:2], b.loc(pf[0])):
+        return
+    atoms = sorted(_atoms(f, set()))
+    ords = [a for a in atoms if a.startswith("ORD")]
+    if not rep.check(bool(ords), "pad_struct:gap-vs-align", "the gap is compared with the struct's alignment", b.loc(pf[0])):
+        return
+    # hypotheses of the two early exits: size >= latest_offset and gap != 0
+    hyp = [a for a in atoms if not a.startswith("ORD") and (("latest_offset" in a and " < " in a and "Layout::size" in a) or
+                                                             a.replace("'", "").rstrip(")").endswith("== lit:0"))]
+    free = [a for a in atoms if not a.startswith("ORD") and a not in hyp]
+    CMP = {"<": lambda o: o < 0, "<=": lambda o: o <= 0, ">": lambda o: o > 0, ">=": lambda o: o >= 0, "==": lambda o: o == 0, "!=": lambda o: o != 0}
+    for o, nm in ((0, "gap == align"), (1, "gap > align")):
+        bad = None
+        for vals in itertools.product((False, True), repeat=len(free)):
+            env = dict(zip(free, vals))
+            env.update({a: False for a in hyp})
+            env.update({a: CMP[a[3:]](o) for a in ords})
+            if not _ev(f, env):
+                bad = [a[:50] for a, v in env.items() if v and not a.startswith("ORD")]
+                break
+        rep.check(bad is None, "pad_struct:pads-when:" + nm.replace(" ", ""), "a tail of %s bytes always gets a padding field "
+                  "(rustc's own rounding supplies at most align-1)%s" % (nm, "" if bad is None else " — not with %s true" % (bad or "everything else false")), b.loc(pf[0]))
 
 
 def qq_atoms(b, n):
